@@ -50,6 +50,11 @@ def gen_case(rng, tier, wrap=False):
                 if rng.random() < 0.08:
                     r[k] = None
             rows.append(r)
+        if rng.random() < 0.08:
+            # a close-only file (index levels, fund NAVs): the Open column is empty on every row - each 14:30 answer is the
+            # previous observation, i.e. the close before it
+            for r in rows:
+                r[1] = None
         if len(rows) >= 3 and rng.random() < 0.2:
             # a later bar repeats an earlier one figure for figure (flat / quantised markets)
             i_, j_ = sorted(rng.sample(range(len(rows)), 2))
